@@ -23,6 +23,10 @@ from ..engine import report
 
 
 def apply_variant(sources, v):
+    if v.get("generic"):
+        from . import generic
+
+        return generic.GENERIC[v["name"]](sources)
     edits = v.get("edits") or [(v["file"], v["old"], v["new"])]
     out = dict(sources)
     for e in edits:
@@ -74,11 +78,14 @@ def _run_one(args):
 
 
 def variants_for(pid):
+    from . import generic
+
+    gen = [dict(name=n, kind="twin", generic=True) for n in generic.GENERIC]
     try:
         mod = importlib.import_module(f"sa.selftest.{pid.lower()}")
     except ModuleNotFoundError:
-        return []
-    return list(mod.VARIANTS)
+        return gen
+    return list(mod.VARIANTS) + gen
 
 
 def run(pid, program, jobs=None):
